@@ -17,7 +17,8 @@ ASSUMPTIONS = [
     "penalty-vetoed steps are not 'rejected steps': the controller has already relaxed the step size; only chaining, the cap and the box apply to them",
 ]
 TIERS = {"quick": {"worlds": 2000, "wall": 150, "limit": 90.0}, "thorough": {"worlds": 40000, "wall": 1700, "limit": 200.0}}
-GATES = ("trials.with_step_hook", "nontrivial", "runs.exact_accepted", "runs.hit_lamb_max", "fired.total", "runs.failed_trials")
+# ("trials.with_step_hook" is a reach probe, not a gate: the second seam hangs on the public Params.step_solver hook)
+GATES = ("nontrivial", "runs.exact_accepted", "runs.hit_lamb_max", "fired.total", "runs.failed_trials")
 
 
 def generate(rng, seed, index, tier):
